@@ -130,6 +130,30 @@ def import_chain_cases(acc, probe, rng, count):
     of the same code written into one file (an import means the imported file's code at the import site, in a scope)."""
     from . import c15
     for _ in range(count):
+        if rng.random() < 0.3:
+            # a namespace made by `* as ns` in the middle file is one of the names a `*` import of that file brings along
+            name = rng.choice(["delay", "wait", "tick"]) + str(rng.randrange(10))
+            lib = "%s: {\n    nop\n    rts\n}\n.const k%s = %d\n" % (name, name, rng.randrange(1, 200))
+            mid_body = "go: {\n    jsr ns.%s\n    lda #ns.k%s\n    rts\n}\n" % (name, name)
+            files = {"lib.asm": lib, "mid.asm": '.import * as ns from "lib.asm"\n' + mid_body,
+                     "main.asm": '.import * from "mid.asm"\n    jsr go\n    jsr ns.%s\n    ldx #ns.k%s\n    rts\n' % (name, name)}
+            flat = lib + mid_body.replace("ns.", "") + "    jsr go\n    jsr %s\n    ldx #k%s\n    rts\n" % (name, name)
+            info = {"how": "*", "alias": "ns-reexport", "levels": 3}
+            acc.evaluations += 1
+            o0 = outcome(probe.ask({"files": files, "ops": OPS, "opts": {"pc": 0x2000}}))
+            o1 = outcome(probe.ask({"files": {"main.asm": flat}, "ops": OPS, "opts": {"pc": 0x2000}}))
+            w = {"kinds": ["import-chain"], "P": files, "expanded": {"main.asm": flat}, "base_pc": 0x2000, "chain": info}
+            if o1[0] != "ok":
+                acc.inconc("flattened namespace chain does not assemble: %r" % (o1[1],))
+            elif o0[0] != "ok":
+                acc.violation("P-rejected|import-chain|namespace-reexport", "the chain is rejected (%s) although the same code in one file assembles" % (o0[1],), w)
+            elif "".join(v[1] for v in o0[1].values()) != "".join(v[1] for v in o1[1].values()):
+                acc.violation("bytes-differ|import-chain|namespace-reexport", "chain and single file assemble differently", w)
+            else:
+                acc.count("import_chains_equal")
+                acc.nontriv("chain-ns", tuple(sorted(files.items())))
+                acc.cover("import_chain_shapes", "*/ns-reexport/levels=3")
+            continue
         files, _sites, info = c15.chain_project(rng)
         lib, mid = files["lib.asm"], files["mid.asm"]
         mid_body = mid.split("\n", 1)[1]
@@ -256,6 +280,44 @@ def transient_import_cases(acc, probe, rng, count):
         acc.nontriv("transient-import", lib, how)
 
 
+def late_choice_cases(acc, probe, rng, count):
+    """A macro (or constant) whose definition is chosen by an `.if` that only settles in a later pass, used in front of the
+    `.if`: must assemble like the program with the finally chosen definition written out."""
+    for _ in range(count):
+        a, b, arg = rng.randrange(1, 60), rng.randrange(1, 60), rng.randrange(1, 4)
+        while b == a:
+            b = rng.randrange(1, 60)
+        defined_later = rng.random() < 0.5
+        kind = rng.choice(["macro", "macro", "const"])
+        lab = "turbo%d" % rng.randrange(10)
+        if kind == "macro":
+            p_src = ("pause(%d)\n.if defined(%s) { .macro pause(n) { ldx #n + %d } } else { .macro pause(n) { ldx #n + %d } }\n" % (arg, lab, a, b)
+                     + ("%s: nop\n" % lab if defined_later else "nop\n") + "pause(%d)\n" % (arg + 1))
+            chosen = a if defined_later else b
+            x_src = "{ ldx #%d + %d }\n" % (arg, chosen) + ("%s: nop\n" % lab if defined_later else "nop\n") + "{ ldx #%d + %d }\n" % (arg + 1, chosen)
+        else:
+            p_src = ("lda #speed\n.if defined(%s) { .const speed = %d } else { .const speed = %d }\n" % (lab, a, b)
+                     + ("%s: nop\n" % lab if defined_later else "nop\n") + "ldy #speed\n")
+            chosen = a if defined_later else b
+            x_src = "lda #%d\n" % chosen + ("%s: nop\n" % lab if defined_later else "nop\n") + "ldy #%d\n" % chosen
+        acc.evaluations += 1
+        o0 = outcome(probe.ask({"files": {"main.asm": p_src}, "ops": OPS, "opts": {"pc": 0x2000}}))
+        o1 = outcome(probe.ask({"files": {"main.asm": x_src}, "ops": OPS, "opts": {"pc": 0x2000}}))
+        w = {"kinds": ["late-choice-" + kind], "P": {"main.asm": p_src}, "expanded": {"main.asm": x_src}, "base_pc": 0x2000}
+        if o1[0] != "ok":
+            acc.inconc("written-out late-choice program does not assemble: %r" % (o1[1],))
+            continue
+        if o0[0] != "ok":
+            acc.violation("P-rejected|late-choice-%s" % kind, "rejected (%s) although the program with the chosen definition written out assembles" % (o0[1],), w)
+            continue
+        if "".join(v[1] for v in o0[1].values()) != "".join(v[1] for v in o1[1].values()):
+            acc.violation("bytes-differ|late-choice-%s" % kind, "assembles to %s, with the finally chosen definition written out to %s" % (
+                "".join(v[1] for v in o0[1].values()), "".join(v[1] for v in o1[1].values())), w)
+            continue
+        acc.count("late_choices_equal")
+        acc.nontriv("late-choice", p_src)
+
+
 def shard(idx, n, seed, tier, params):
     acc = Acc()
     probe = Probe()
@@ -266,6 +328,7 @@ def shard(idx, n, seed, tier, params):
     import_chain_cases(acc, probe, rng, 8 if tier == "quick" else 200)
     nested_loop_cases(acc, probe, rng, 12 if tier == "quick" else 400)
     transient_import_cases(acc, probe, rng, 3 if tier == "quick" else 40)
+    late_choice_cases(acc, probe, rng, 6 if tier == "quick" else 200)
     for i in range(params["programs"] // n):
         if time.time() > t_end:
             acc.count("budget_cut")
